@@ -880,4 +880,7 @@ def run(ctx):
     # fault() moves the atoms above the plane and then wraps the system (out-of-plane shifts push atoms through a non-periodic face): "atoms below stay, atoms above move by
     # the shift" rests on System.wrap keeping absolute positions while it extends the cell, decided by the rule of the property that owns it
     from .c05 import wrap as system_wrap
-    ctx.run_rules([plane_table, search, free_surface, fault, system_wrap])
+    # free_surface_basis / FreeSurface take (hkl) relative to the conventional cell and carry the two in-plane seed vectors into the primitive cell through the centering
+    # tables of tools/miller (conventional_setting p/a/b/c/i/f/t1/t2): a table that is not the inverse of its partner puts the seeds in another plane
+    from .c04 import centering as centering_tables
+    ctx.run_rules([plane_table, search, free_surface, fault, system_wrap, centering_tables])
